@@ -252,6 +252,8 @@ pub fn run_fail(id: &str, rest: &str) -> String {
     let stream = match encode(&c) { Ok(s) => s, Err(e) => return format!("{} enc-{}", id, e) };
     let mut probe = UserSink::new(None); probe.record_ops = false;
     if stream.write(&mut probe).is_err() { return format!("{} probe-err", id); }
+    let mut first = ByteSink::new();
+    let reference = match stream.write(&mut first) { Ok(()) => crate::s_hist::fnv_bytes(first.as_slice()), Err(_) => "err".to_string() };
     let total = probe.ops.len();
     let k = if kspec.starts_with('a') { kspec[1..].parse::<usize>().unwrap() } else { total * kspec[1..].parse::<usize>().unwrap() / 1000 };
     let mut sink = UserSink::new(Some(k));
@@ -264,5 +266,9 @@ pub fn run_fail(id: &str, rest: &str) -> String {
     // accepted calls: too long to print in full; print count, a digest of the calls and the bits
     let mut h: u64 = 0xcbf29ce484222325;
     for o in &sink.ops { for b in o.bytes() { h ^= b as u64; h = h.wrapping_mul(0x100000001b3); } h ^= 0x20; h = h.wrapping_mul(0x100000001b3); }
-    format!("{} {} k={} total={} accepted={} calls={:016x} bits={}", id, verdict, k, total, sink.ops.len(), h, sink.bits.len())
+    // afterwards the same stream is written once more, on the same thread, into a healthy sink: a failed
+    // write must not leave anything behind that changes a later one
+    let mut again = ByteSink::new();
+    let retry = match stream.write(&mut again) { Ok(()) => crate::s_hist::fnv_bytes(again.as_slice()), Err(_) => "err".to_string() };
+    format!("{} {} k={} total={} accepted={} calls={:016x} bits={} ref={} retry={}", id, verdict, k, total, sink.ops.len(), h, sink.bits.len(), reference, retry)
 }
